@@ -17,7 +17,7 @@ pub const DEF: PropDef = PropDef {
     id: "C15",
     run,
     oracle,
-    rule: "cases = (cache-preloading calls, measured call) from: F1 hostile headers over short bodies (every count/length field of every version set to 0xffff/0x7fff); F2 buffers packed with n minimal packets per version (also with all 65,536 version numbers in the public allowed set); F3 one packet with n minimal sets/flowsets (empty, one record) under small and 1000-field cached templates; F4 one set with n minimal records; F5 templates with n fields plus matching data; F6 templates with z zero-length fields x r records (z*r <= 2e5); F7 failing records (V9 retry loop); F1d chains of minimal messages whose data (variable-length prefix) or template (fixed width 65534; enterprise, string, octet-array and untyped elements) announces bytes the set does not hold; F9 decode-then-discard; F10 one packet whose n sets redefine (same kind / other kind) or carry data for n distinct ids of a cache that earlier calls filled with 6000 templates (cost must not depend on what is cached); F8 random hostile and conformant histories; sizes up to the 65,535-byte limit. Oracle per measured call: S1 alloc_bytes <= K0 + K1*|buf| + K2*result_size; S2 result_size <= K0 + K3*(|buf| + wire size of the cached templates); S3 (metamorphic, per family) cost(2n) <= 2.5*cost(n) + K0 for alloc_bytes, alloc_calls and result_size at successive doublings up to the limit. S5 (CPU work, counted as instructions executed inside the measured parse_bytes call by valgrind/callgrind on a helper binary - exact, no clock involved; per family at its maximal size n): instructions(n) <= 8 x instructions(n/4) + 3e6 (linear 4x, quadratic 16x); S7 (families F11: the same small packet after n and after n/4 earlier calls - distinct unknown template ids, distinct source ids / observation domains, one template redefined over and over; n = 60,000): instructions(after n) <= 1.5 x instructions(after n/4) + 3000 (measured: identical counts), and S1 holds for every one of the n calls; S6 (families F10, a packet of 500 sets): instructions against the 6000-template cache <= 2 x instructions against a cache holding only the 500 ids used + 5e5. K0 = 128 KiB; K1, K2, K3 calibrated once (4x the maximum observed on the unchanged tree over the generated cases that avoid open findings; recorded in the source). A bound that fails only by what the open finding 'zero-length fields are materialised per record' explains (budget computed from the templates in effect and the set sizes) is forgiven with that signature; anything else is a violation. non-trivial = |buf| >= 1 KiB, or a header field announces >= 16x more records/bytes than present, or the case is an S3 doubling pair; distinct by digest.",
+    rule: "cases = (cache-preloading calls, measured call) from: F1 hostile headers over short bodies (every count/length field of every version set to 0xffff/0x7fff); F2 buffers packed with n minimal packets per version (also with all 65,536 version numbers in the public allowed set); F3 one packet with n minimal sets/flowsets (empty, one record) under small and 1000-field cached templates; F4 one set with n minimal records; F5 templates with n fields plus matching data; F6 templates with z zero-length fields x r records (z*r <= 2e5); F7 failing records (V9 retry loop); F1d chains of minimal messages whose data (variable-length prefix) or template (fixed width 65534; enterprise, string, octet-array and untyped elements) announces bytes the set does not hold; F9 decode-then-discard; F10 one packet whose n sets redefine (same kind / other kind) or carry data for n distinct ids of a cache that earlier calls filled with 6000 templates (cost must not depend on what is cached); F8 random hostile and conformant histories; sizes up to the 65,535-byte limit. Oracle per measured call: S1 alloc_bytes <= K0 + K1*|buf| + K2*result_size; S2 result_size <= K0 + K3*(|buf| + wire size of the cached templates); S3 (metamorphic, per family) cost(2n) <= 2.5*cost(n) + K0 for alloc_bytes, alloc_calls and result_size at successive doublings up to the limit. S5 (CPU work, counted as instructions executed inside the measured parse_bytes call by valgrind/callgrind on a helper binary - exact, no clock involved; per family at its maximal size n): instructions(n) <= 8 x instructions(n/4) + 3e6 (linear 4x, quadratic 16x); S7 (families F12: a header-only packet after a datagram of n header-only packets; families F11: the same small packet after n and after n/4 earlier calls - distinct unknown template ids, distinct source ids / observation domains, one template redefined over and over; n = 60,000): instructions(after n) <= 1.5 x instructions(after n/4) + 3000 (measured: identical counts), and S1 holds for every one of the n calls; S6 (families F10, a packet of 500 sets): instructions against the 6000-template cache <= 2 x instructions against a cache holding only the 500 ids used + 5e5. K0 = 128 KiB; K1, K2, K3 calibrated once (4x the maximum observed on the unchanged tree over the generated cases that avoid open findings; recorded in the source). A bound that fails only by what the open finding 'zero-length fields are materialised per record' explains (budget computed from the templates in effect and the set sizes) is forgiven with that signature; anything else is a violation. non-trivial = |buf| >= 1 KiB, or a header field announces >= 16x more records/bytes than present, or the case is an S3 doubling pair; distinct by digest.",
     assumptions: &[
         "memory cost is allocator traffic on the calling thread (deterministic); CPU cost is the instruction count of the measured call under callgrind (repeatable to within a few percent; skipped, and reported as skipped in the evidence, if valgrind is not installed); clocks are never an oracle",
         "constants K1..K3 are calibrated, not derived; the targeted defects exceed them by orders of magnitude",
@@ -293,7 +293,7 @@ fn oracle_cg(case: &Case) -> Outcome {
             ));
         }
     }
-    if name.starts_with("F11-") {
+    if name.starts_with("F11-") || name.starts_with("F12-") {
         // S7: the measured call comes after n resp. n/4 earlier calls and is the same packet
         S7_MAX_RATIO_X100.fetch_max(big * 100 / small.max(1), Ordering::Relaxed);
         o.label("S7-call-cost-vs-history-length");
@@ -521,6 +521,17 @@ fn family_f10(name: &str, n: usize) -> Option<(Vec<Vec<u8>>, Vec<u8>)> {
 pub fn family(name: &str, n: usize) -> Option<(Vec<Vec<u8>>, Vec<u8>)> {
     if name.starts_with("F10-") || name.starts_with("F10s-") {
         return family_f10(name, n);
+    }
+    if let Some(rest) = name.strip_prefix("F12-tiny-call-after-chain-") {
+        // one datagram full of n header-only packets, then a single header-only packet: what a
+        // call costs must not depend on how large the PREVIOUS call's buffer or result was
+        let unit = match rest {
+            "ipfix" => ipfix_msg(&[]),
+            "v9" => v9_pkt(0, &[]),
+            "v5" => enc_fixed(5, 0, &[0; 20], &[]),
+            _ => return None,
+        };
+        return Some((vec![unit.repeat(n)], unit));
     }
     if let Some(rest) = name.strip_prefix("F11-history-") {
         // n earlier calls of one small packet each, then one more of the same kind: what a
@@ -778,6 +789,9 @@ pub const FAMILIES: &[(&str, usize, usize)] = &[
     ("F10-ipfix-plain-cached-redefined", 16, 3700),
     ("F10-ipfix-plain-cached-data", 8, 6000),
     ("F10-ipfix-options-cached-data", 12, 5000),
+    ("F12-tiny-call-after-chain-ipfix", 16, 4095),
+    ("F12-tiny-call-after-chain-v9", 20, 3276),
+    ("F12-tiny-call-after-chain-v5", 24, 2730),
     ("F11-history-distinct-unknown-ids-v9", 1, 60000),
     ("F11-history-distinct-unknown-ids-ipfix", 1, 60000),
     ("F11-history-distinct-source-ids-v9", 1, 60000),
